@@ -195,4 +195,7 @@ class SegwitChecker(SolutionChecker):
                     "this version witness program not yet supported",
                     errno.DISCOURAGE_UPGRADABLE_WITNESS_PROGRAM,
                 )
+            else:
+                # BIP141: a witness program of unknown version succeeds, leaving a clean stack
+                return BitcoinScriptTools.compile("OP_1"), [], flags, None
         return None
